@@ -586,7 +586,9 @@ def horizontal_diffusion_step_filter(
     A function that accepts a state and returns a filtered state.
   """
   eigenvalues = grid.laplacian_eigenvalues
-  scale = dt / (tau * abs(eigenvalues[-1]) ** order)
+  # use the largest eigenvalue magnitude: on padded modal layouts the trailing
+  # entries of `eigenvalues` are zero.
+  scale = dt / (tau * np.max(np.abs(eigenvalues)) ** order)
   filter_fn = filtering.horizontal_diffusion_filter(grid, scale, order)
   return runge_kutta_step_filter(filter_fn)
 
